@@ -148,4 +148,15 @@ CHECKS = {
   "technique": "Coq proof (kernel operators + kernel_adjoint) + exact integer model/implementation correspondence",
   "design_ref": "DESIGN.md §3 C08, notes/C06_C08.md",
  },
+ "C14": {
+  "text": "Coq theorems over an abstract real inner-product space (g an extended-real convex function given by its prox): the configuration logic `_get_alg` as a total decision "
+          "function rejects exactly CG+proxg, GradientMethod+G and unknown solvers; for each branch the configured iteration solves the DOCUMENTED problem: CG system <=> stationarity <=> "
+          "minimiser (and meets C12's hypotheses); GradientMethod fixed points = minimisers for any alpha; PDHG without G: fixed points = minimisers for all tau, sigma > 0; PDHG / ADMM with G: "
+          "fixed points = KKT pairs (=> minimiser; converse given a multiplier). All 1152 configurations are constructed and their wiring compared exactly with the model's descriptor; "
+          "configured data and first updates compared on PrimFloat; every accepted solver's objective compared with an independent optimum.",
+  "note": "Trusted: Coq kernel+vm_compute(PrimFloat); stdlib real-number axioms + funext. Partial: multiplier existence for g o G (chain rule) and convergence of PDHG/ADMM to the fixed point "
+          "are not proved (the objective at the returned x is validated numerically against an independent optimum); complex data only through the numpy oracle.",
+  "technique": "Coq proof (fixed points of the configured iteration = minimisers) + exhaustive configuration correspondence + PrimFloat step correspondence",
+  "design_ref": "DESIGN.md §3 C14, notes/C14.md",
+ },
 }
